@@ -393,6 +393,12 @@ func (e *Engine) strConcat(a, b StrV) Value {
 // strEq compares strings. Lengths may be symbolic; contents are compared up to max(Lmax, concrete len).
 // Harnesses guarantee (by Assume) that symbolic strings carry information only in their first Lmax bytes.
 func (e *Engine) strEq(a, b StrV) *Term {
+	// lengths that cannot be equal (by the bounds known on this path) settle it
+	al, ah := e.bounds(a.len)
+	bl, bh := e.bounds(b.len)
+	if ah < bl || bh < al {
+		return BoolC(false)
+	}
 	res := Cmp("=", a.len, b.len)
 	n := uint64(e.cfg.Lmax)
 	if a.len.Op == "c" {
